@@ -43,6 +43,9 @@ package discovery
 //@   ensures forall i int :: len(after) <= i && i < len(ml) ==> ml[i].hasBefore && !ml[i].hasAfter && !ml[i].wasMoved && !ml[i].isIdentical
 //@   ensures forall i int :: 0 <= i && i < len(after) && ml[i].hasBefore ==> (ml[i].wasMoved <==> ml[i].after.Path.Name != ml[i].before.Path.Name)
 //@   ensures forall i int :: 0 <= i && i < len(after) && !ml[i].hasBefore ==> !ml[i].wasMoved && !ml[i].isIdentical
+// a HEAD rule that is not identical to any base rule is paired by name only when exactly one base rule of its kind and
+// name is left: with several candidates none is picked (the rule counts as added, the candidates stay unmatched)
+//@   at store before#2 assert len(matches) == 1 && !matched
 //@   loop 1 invariant 0 <= iter && iter <= len(after) && len(ml) == iter
 //@   loop 1 invariant forall i int :: 0 <= i && i < iter ==> ml[i].hasAfter
 //@   loop 1 invariant forall i int :: 0 <= i && i < iter && ml[i].hasBefore ==> (ml[i].wasMoved <==> ml[i].after.Path.Name != ml[i].before.Path.Name)
